@@ -25,6 +25,8 @@ NameLists == UNION {[1..n -> S] : n \in 1..2, S \in {{"DAV: resourcetype", "DAV:
              \cup {<<a, a>> : a \in Known} \cup {<<a, b, a>> : a \in {"DAV: resourcetype", "DAV: nosuchprop"}, b \in {"DAV: getetag", "urn:example:ns foo"}}
              \* the same local name in two namespaces: two distinct properties
              \cup {<<"DAV: getetag", "urn:example:ns getetag">>, <<"urn:example:ns getetag", "DAV: getetag">>, <<"urn:example:ns resourcetype", "DAV: resourcetype", "DAV: getetag">>}
+             \* names that differ from a known one in letter case only (XML names are case sensitive): unknown properties of their own
+             \cup {<<"DAV: GetETag">>, <<"DAV: getetag", "DAV: GETETAG">>, <<"DAV: ResourceType", "DAV: resourcetype">>}
              \cup {<< >>}      \* an empty DAV:prop element: the empty set of names, still a prop request (207)
              \cup {<<a>> : a \in Known} \cup {<<"SRV: home-set", "CARD: home-set">>, <<"CARD: home-set", "DAV: resourcetype", "SRV: home-set">>}
 PfRes(lay) == {"ROOT", "P", "H"} \cup Cols(lay) \cup Objs(lay)
